@@ -257,7 +257,15 @@ func runC12(c *Ctx) {
 				bAllowed
 			)
 			r := &esp.Rule{Name: "C12.R2"}
-			r.Relevant = func(*ssa.Function) bool { return false }
+			// the flag policy may sit in an unexported helper that is handed the probe's answer and consults the
+			// permission (overwriteDecision(ctx, path, exists) (write bool, err error)): it is summarised
+			policy := map[*ssa.Function]bool{}
+			for _, h := range unexportedRegion(g) {
+				if h != g && len(callsIn(h, func(call ssa.CallInstruction) bool { return call.Common().StaticCallee() == allow })) > 0 {
+					policy[h] = true
+				}
+			}
+			r.Relevant = func(f *ssa.Function) bool { return policy[f] }
 			r.Match = func(in ssa.Instruction) []esp.Ev {
 				call, ok := in.(ssa.CallInstruction)
 				if !ok {
